@@ -8,10 +8,10 @@ diff=subprocess.run(["git","-C",f"/tmp/seed/{name}","diff","--","src"],capture_o
 assert diff.strip(), "empty diff"
 open(f"{d}/patch.diff","w").write(diff)
 shutil.copy(f"/tmp/seed/{name}/tests/seeded_demo.rs", f"{d}/seeded_demo.rs")
-res=("caught as first built: " if first=="yes" else "MISSED as first built; ")+caught
+res=("caught as first built: " if first=="yes" else "MISSED as first built ")+caught
 json.dump({"id":name,"breaks_property":prop,"change":what,"needs_to_manifest":needs,
-  "author":"independent sub-agent given only the property text (and, for -b seeds, the area an earlier seed had used) and a scratch worktree",
+  "author":"independent sub-agent given only the property text, the mechanisms of the earlier seeds of that property (to pick another one) and a scratch worktree",
   "confirmed":"confirm_seed.sh in the scratch worktree: cargo build ok; existing suite 549 passed 0 failed with the change; tests/seeded_demo.rs fails with the change and passes without it",
   "ran":"./seedtest.sh <dir> "+prop+" quick  (git -C /repo apply patch.diff; ./check "+prop+" quick; git -C /repo checkout -- .)",
-  "result":res,"base_commit":"2c5e46b"}, open(f"{d}/meta.json","w"), indent=1)
+  "result":res,"base_commit":subprocess.run(["git","-C",f"/tmp/seed/{name}","rev-parse","--short","HEAD"],capture_output=True,text=True).stdout.strip()}, open(f"{d}/meta.json","w"), indent=1)
 print("saved",name)
